@@ -222,7 +222,7 @@ def gen_selection_cases(ctx):
                     for t in ('tournament', 'spea2'):
                         cases.append({'op': 'sel', 't': t, 'multi': multi, 'default': 3, 'ps': ps,
                                       'pop': [[base[i][0], base[i][1], 0] for i in seq], 'seed': len(cases), 'ex': True})
-    n_rand = ctx.budget(7000, 60000)
+    n_rand = ctx.budget(6000, 45000)
     for k in range(n_rand):
         multi = r.random() < 0.5
         t = r.choice(['tournament', 'spea2'])
@@ -322,7 +322,7 @@ def gen_elitism_cases(ctx):
                 cases.append({'op': 'eli', 'et': et, 'multi': False, 'pop_size': 5, 'min_pop': 5,
                               'best': [[base[i][0], base[i][1], 0] for i in sb],
                               'new': [[base[i][0], base[i][1], 0] for i in sn], 'seed': len(cases), 'ex': True})
-    n_rand = ctx.budget(6000, 50000)
+    n_rand = ctx.budget(5000, 35000)
     for _ in range(n_rand):
         et = r.choice(['keep_n_best', 'keep_n_best', 'replace_worst', 'replace_worst', 'none'])
         multi = r.random() < 0.12
@@ -418,7 +418,7 @@ INH_FN = ('fun c => match c with (sc, t, ps, prev, new, out) => '
 def gen_inheritance_cases(ctx):
     r = ctx.rng
     cases = []
-    n_rand = ctx.budget(6000, 50000)
+    n_rand = ctx.budget(5000, 35000)
     for _ in range(n_rand):
         sc = r.choice(['steady_state', 'steady_state', 'generational', 'parameter_free'])
         t = r.choice(['tournament', 'spea2'])
@@ -576,7 +576,7 @@ REP_FN = 'fun c => match c with (w, calls) => [rep_agree w calls; rep_holds_b ca
 def gen_reproduction_cases(ctx):
     r = ctx.rng
     cases = []
-    n = ctx.budget(700, 6000)
+    n = ctx.budget(700, 4000)
     for _ in range(n):
         ncalls = r.choice([1, 1, 2, 3])
         cases.append({'op': 'rep', 'ratio': r.choice([0.25, 0.5, 0.5, 0.75, 0.875, 1.0]),
